@@ -34,6 +34,14 @@ func c05Options(t *rapid.T, words []string) []database.SearchOptions {
 		mk(func(o *database.SearchOptions) { o.ContextBoosts = map[string]float64{w(0): 3} }),
 		mk(func(o *database.SearchOptions) { o.ContextBoosts = map[string]float64{w(0): 1.5} }),
 		mk(func(o *database.SearchOptions) { o.ContextBoosts = map[string]float64{w(1): 3} }),
+		// weights that differ by less than any sensible rounding step
+		mk(func(o *database.SearchOptions) { o.ContextBoosts = map[string]float64{w(0): 3.004} }),
+		mk(func(o *database.SearchOptions) { o.ContextBoosts = map[string]float64{w(0): math.Nextafter(3, 4)} }),
+		mk(func(o *database.SearchOptions) { o.ContextBoosts = map[string]float64{w(0): 0.004} }),
+		mk(func(o *database.SearchOptions) { o.ContextBoosts = map[string]float64{w(0): 0} }),
+		mk(func(o *database.SearchOptions) { o.PipelineBoost = 2.0000001 }),
+		mk(func(o *database.SearchOptions) { o.FuzzyThreshold = 41 }),
+		mk(func(o *database.SearchOptions) { o.Limit = 6 }),
 		mk(func(o *database.SearchOptions) { o.PipelineOnly = true }),
 		mk(func(o *database.SearchOptions) { o.PipelineBoost = 2 }),
 		mk(func(o *database.SearchOptions) { o.UseFuzzy = false }),
@@ -52,7 +60,10 @@ func c05Options(t *rapid.T, words []string) []database.SearchOptions {
 		mk(func(o *database.SearchOptions) { o.PipelineBoost = math.Inf(1); o.AllPlatforms = true }),
 		mk(func(o *database.SearchOptions) { o.PipelineBoost = math.Inf(1); o.UseNLP = false }),
 		mk(func(o *database.SearchOptions) { o.ContextBoosts = map[string]float64{w(0): math.Inf(1)} }),
-		mk(func(o *database.SearchOptions) { o.ContextBoosts = map[string]float64{w(0): math.Inf(1)}; o.UseFuzzy = false }),
+		mk(func(o *database.SearchOptions) {
+			o.ContextBoosts = map[string]float64{w(0): math.Inf(1)}
+			o.UseFuzzy = false
+		}),
 		mk(func(o *database.SearchOptions) { o.ContextBoosts = map[string]float64{w(1): math.Inf(1)} }),
 	}
 	return pool
